@@ -18,6 +18,7 @@ import vlib, shimlib
 K_DESYNC = "raw/long-lived-handle/read-past-partial-sample-desynchronises"
 K_SIEHELD = "sie/long-lived-handle/stale-stdio-buffer-after-rewind"
 K_SIEZERO = "sie/writer/placeholder-zero-record-visible-before-data"
+K_SIEEMPTY = "sie/empty-data-file/gd_nframes-fails"
 K_TEXTHELD = "text/long-lived-handle/appended-lines-not-read-after-eof"
 K_TEXTPART = "text/partial-trailing-line-reported-as-frame"
 K_NOREF = "no-REFERENCE/metaflush-writes-REFERENCE-of-last-RAW/reference-field-changes"
@@ -25,7 +26,7 @@ K_GZHELD = "gzip/long-lived-handle/frame-count-from-new-file-data-from-old-descr
 SPF_A = 3
 
 
-def make_dirfile(d, enc, fa=2, fb=2, spf=SPF_A, noref=False):
+def make_dirfile(d, enc, fa=2, fb=2, spf=SPF_A, noref=False, links=False):
     os.makedirs(d)
     if noref:      # no /REFERENCE: the reference field is the FIRST RAW field (a); the last line is a RAW field too
         open(os.path.join(d, "format"), "w").write("/VERSION 9\n/ENDIAN little\n/ENCODING %s\na RAW INT16 %d\nhb CONST UINT32 0\nb RAW UINT8 1\n" % (enc, spf))
@@ -33,18 +34,17 @@ def make_dirfile(d, enc, fa=2, fb=2, spf=SPF_A, noref=False):
         open(os.path.join(d, "format"), "w").write("/VERSION 9\n/ENDIAN little\n/ENCODING %s\na RAW INT16 %d\nb RAW UINT8 1\nhb CONST UINT32 0\n/REFERENCE a\n" % (enc, spf))
     da = struct.pack("<%dh" % (fa * spf), *[1000 + i for i in range(fa * spf)])
     db = bytes(i & 0xff for i in range(fb))
-    if enc == "gzip":
-        open(os.path.join(d, "a.gz"), "wb").write(gzip.compress(da)); open(os.path.join(d, "b.gz"), "wb").write(gzip.compress(db))
-    elif enc == "bzip2":
-        import bz2
-        open(os.path.join(d, "a.bz2"), "wb").write(bz2.compress(da)); open(os.path.join(d, "b.bz2"), "wb").write(bz2.compress(db))
-    elif enc == "lzma":
-        import lzma
-        open(os.path.join(d, "a.xz"), "wb").write(lzma.compress(da)); open(os.path.join(d, "b.xz"), "wb").write(lzma.compress(db))
-    elif enc in ("text", "sie"):
-        pass          # pre-populated through the library itself (see prepopulate)
-    else:
-        open(os.path.join(d, "a"), "wb").write(da); open(os.path.join(d, "b"), "wb").write(db)
+    ext = {"none": "", "gzip": ".gz", "bzip2": ".bz2", "lzma": ".xz"}.get(enc)
+    if ext is not None and fa > 0:
+        import bz2, lzma
+        comp = {"none": lambda x: x, "gzip": gzip.compress, "bzip2": bz2.compress, "lzma": lzma.compress}[enc]
+        for name, data in (("a", da), ("b", db)):
+            if links:        # the data file is reached through a symbolic link (data kept on another volume, say)
+                os.makedirs(os.path.join(d, "store"), exist_ok=True)
+                open(os.path.join(d, "store", name + ext), "wb").write(comp(data))
+                os.symlink(os.path.join("store", name + ext), os.path.join(d, name + ext))
+            else:
+                open(os.path.join(d, name + ext), "wb").write(comp(data))
 
 
 def parse_pass(line):
@@ -145,7 +145,14 @@ def main():
             ("lib", "gzip", ["write", None, "p:a:3000", "s", "p:a:3000", "f"]),
             ("lib", "text", ["write", None, "p:a:%d" % (2600 + rng.randrange(50)), "s", "p:a:1500", "f"], 1),
             # no /REFERENCE directive: the reference field must stay the first RAW field across the writer's metadata flushes
-            ("lib", "none", ["write", None, "p:a:3", "h", "m", "p:a:6", "p:b:1", "f"], SPF_A, "noref")]
+            ("lib", "none", ["write", None, "p:a:3", "h", "m", "p:a:6", "p:b:1", "f"], SPF_A, "noref"),
+            # data files reached through symbolic links
+            ("raw-foreign", "none", ["rawwrite", None, "2", "1000", "6", "24"] + [str(c) for c in rand_chunks(6)], SPF_A, "links"),
+            ("lib", "none", ["write", None, "p:a:4", "p:b:1", "s", "p:a:5", "f", "p:a:3"], SPF_A, "links"),
+            ("lib", "gzip", ["write", None, "p:a:6", "s", "p:a:3", "f", "p:a:3"], SPF_A, "links")] + [
+            # a dirfile whose data files do not exist yet; the writer polls gd_nframes/gd_eof between appends at GD_HERE
+            ("lib", e_, ["write", None, "p:a:6", "n", "P:a:3", "e", "P:a:3", "s", "n", "P:a:6", "n", "e", "P:a:3"], SPF_A, "empty")
+            for e_ in ("none", "gzip", "text", "sie")]
     if chk.thorough:
         scen.append(("lib", "bzip2", ["write", None, "p:a:6", "p:b:2", "s", "p:a:3", "f", "p:a:3", "p:b:1", "c", "p:a:6"]))
         scen.append(("lib", "lzma", ["write", None, "p:a:6", "p:b:2", "s", "p:a:3", "f", "p:a:3", "p:b:1", "c", "p:a:6"]))
@@ -160,9 +167,11 @@ def main():
         kind, enc, cmd = sc_[:3]
         spf = sc_[3] if len(sc_) > 3 else SPF_A
         noref = len(sc_) > 4 and sc_[4] == "noref"
+        links = len(sc_) > 4 and sc_[4] == "links"
+        empty = len(sc_) > 4 and sc_[4] == "empty"
         d = os.path.join(base, "s%d" % sid, "df")
-        make_dirfile(d, enc, spf=spf, noref=noref)
-        if enc in ("text", "sie"):
+        make_dirfile(d, enc, spf=spf, noref=noref, links=links, fa=(0 if empty else 2), fb=(0 if empty else 2))
+        if enc in ("text", "sie") and not empty:
             vlib.sh([exe, "write", d, "p:a:%d" % (2 * spf), "p:b:2"], timeout=60)
         counts["by_kind"][kind + "/" + enc] = counts["by_kind"].get(kind + "/" + enc, 0) + 1
         cmd = [exe] + [(os.path.join(d, "a") if cmd[0] == "rawwrite" else d) if c is None else c for c in cmd]
@@ -204,9 +213,15 @@ def main():
         # ---- the property text
         last_nf = {"fresh": -1, "held": -1}
         last_hb = [0]
-        total_a = (2 * spf + sum(int(c.split(":")[2]) for c in cmd if c.startswith("p:a:"))) if kind == "lib" else \
+        total_a = ((0 if empty else 2 * spf) + sum(int(c.split(":")[2]) for c in cmd if c.startswith(("p:a:", "P:a:")))) if kind == "lib" else \
                   (int(cmd[5]) + int(cmd[6]) if cmd[1] == "rawwrite" else None)
         for label, fr, he, gr, sz in obs:
+            if empty and sz < 0:
+                continue          # nothing has been written yet: the data file of the reference field does not exist
+            if empty and sz == 0 and enc == "sie" and (fr.get("e") or he.get("e")):
+                spec_bad.append((K_SIEEMPTY, "readers %s: the sie data file exists but is still empty and gd_nframes fails with %s instead of reporting 0 frames" % (label, fr.get("e")),
+                                 dict(desc, at=label, kind="impl-vs-spec")))
+                continue
             for tag, p in (("fresh", fr), ("held", he)):
                 if p.get("bad") or "openerr" in p:
                     spec_bad.append(("%s/%s/%s-reader-fails" % (kind, enc, tag), "%s reader %s: %s" % (tag, label, p["raw"][:200]), dict(desc, at=label, kind="impl-vs-spec")))
@@ -249,6 +264,9 @@ def main():
                 known.append(("sequential reader with a long-lived handle, %s: asked for samples from %d, got %s instead of %s" % (
                     label, gr["from"], gr["v"][:6], [1000 + gr["from"] + i for i in range(min(6, gr["got"]))]), dict(desc, at=label, kind="impl-vs-spec"), kind, enc))
             nontriv.add((sid, "greedy", gr.get("from"), gr.get("got")))
+        if total_a is not None and obs and "nf" in obs[-1][1] and not obs[-1][1].get("e") and obs[-1][1]["nf"] != total_a // spf:
+            spec_bad.append(("%s/%s/final-frame-count-incomplete" % (kind, enc), "after the writer has exited a fresh reader reports %d frames although %d complete frames were written" % (
+                obs[-1][1]["nf"], total_a // spf), dict(desc, kind="impl-vs-spec", seen=obs[-1][1]["raw"][:200])))
         # ---- the model, for the foreign raw writer (file a only)
         if kind == "raw-foreign":
             wsz = []
